@@ -51,6 +51,7 @@ var segmentPool = sync.Pool{New: func() any { return new(segment) }}
 func newSegment() *segment {
 	seg := segmentPool.Get().(*segment)
 	seg.writeIdx.Store(0)
+	verifhook.At("seg.new.reset", seg, 0, 0)
 	seg.deqIdx.Store(0)
 	seg.next.Store(nil)
 	for i := range seg.data {
@@ -143,6 +144,7 @@ func (m *UnboundedSegmentedMailbox) Enqueue(value *ReceiveContext) error {
 	for {
 		verifhook.At("seg.enq.reserve", m, 0, 0)
 		tail := m.tail.Load()
+		verifhook.At("seg.enq.add", m, 0, 0)
 		idx := tail.writeIdx.Add(1) - 1
 		if idx < segmentSize {
 			verifhook.At("seg.enq.store", m, int64(idx), 0)
